@@ -217,6 +217,55 @@ template <size_t N, class T> static void identity_h()
     vf_observe_u64(1);
 }
 
+// the vector type every coordinate, value and configuration is made of (covfie::array::array): each constructor builds the
+// vector it is named for (fill: every component; from a C array; from N scalars; copy), element access, size, begin/end;
+// and a constant backend configured through the fill constructor returns that value in every component
+template <size_t N, class T> static void vec_h()
+{
+    using A = array::array<T, N>;
+    T w[N];
+    for (size_t k = 0; k < N; k++) w[k] = vf::nondet<T>();
+    A fill(w[0]);
+    bool ok = true;
+    for (size_t k = 0; k < N; k++) ok = ok && vf::same_bits<T>(fill[k], w[0]) && vf::same_bits<T>(fill.at(k), w[0]);
+    vf_assert(ok, 1);
+    ok = true;
+    if constexpr (N > 1) {
+        T carr[N];
+        for (size_t k = 0; k < N; k++) carr[k] = w[k];
+        A from(carr);
+        for (size_t k = 0; k < N; k++) ok = ok && vf::same_bits<T>(from[k], w[k]);
+    }
+    A var = [&] {
+        if constexpr (N == 1) return A(w[0]);
+        else if constexpr (N == 2) return A(w[0], w[1]);
+        else if constexpr (N == 3) return A(w[0], w[1], w[2]);
+        else return A(w[0], w[1], w[2], w[3]);
+    }();
+    for (size_t k = 0; k < N; k++) ok = ok && vf::same_bits<T>(var[k], w[k]);
+    A cp(var);
+    A as;
+    as = var;
+    for (size_t k = 0; k < N; k++) ok = ok && vf::same_bits<T>(cp[k], w[k]) && vf::same_bits<T>(as[k], w[k]);
+    vf_assert(ok, 2);
+    ok = var.size() == N && var.end() - var.begin() == static_cast<std::ptrdiff_t>(N) && var.cend() - var.cbegin() == static_cast<std::ptrdiff_t>(N);
+    size_t i = 0;
+    for (const T & e : var) { ok = ok && vf::same_bits<T>(e, w[i]); i++; }
+    ok = ok && i == N;
+    var[N - 1] = w[0];
+    ok = ok && vf::same_bits<T>(var.at(N - 1), w[0]);
+    vf_assert(ok, 3);
+    // through a stack: constant<float2 -> T^N> configured with the fill constructor
+    using L = backend::constant<vector::float2, vector::vector_d<T, N>>;
+    field<L> f = build<field<L>>(typename L::configuration_t(w[0]));
+    typename field<L>::view_t v(f);
+    auto r = v.at(vf_nondet_f32(), vf_nondet_f32());
+    ok = true;
+    for (size_t k = 0; k < N; k++) ok = ok && vf::same_bits<T>(r[k], w[0]);
+    vf_assert(ok, 4);
+    vf_observe_u64(N);
+}
+
 // the variadic and the vector form of field_view::at agree (N = 1..4)
 template <size_t N, size_t M, class Tin, class Tout> static void viewforms_h()
 {
